@@ -61,4 +61,28 @@ func init() {
 		"		if o.opts.ignoreHostLeaseholder && tx.Leaseholder == o.db.config.Cluster.HostKey() {", "		if tx.Leaseholder == o.db.config.Cluster.HostKey() {", "C13.R3.wrapper")
 	mut("C13", "wrapper filter inverted", kvgo,
 		"		if o.opts.ignoreHostLeaseholder && tx.Leaseholder == o.db.config.Cluster.HostKey() {", "		if o.opts.ignoreHostLeaseholder && tx.Leaseholder != o.db.config.Cluster.HostKey() {", "C13.R3.wrapper")
+
+	// ---------------- C11
+	const plgo = "aspen/internal/cluster/pledge/pledge.go"
+	mut("C11", "verdict releases the juror lock between the test and the record", plgo,
+		"	j.mu.Lock()\n	defer j.mu.Unlock()\n	if slices.Contains(j.approvals, req.Key) {",
+		"	j.mu.Lock()\n	seen := slices.Contains(j.approvals, req.Key)\n	j.mu.Unlock()\n	j.mu.Lock()\n	defer j.mu.Unlock()\n	if seen {", "C11.R1.memory")
+	mut("C11", "a fresh juror per request", plgo,
+		"		return Response{}, j.verdict(ctx, req)", "		j = &juror{Config: cfg}\n		return Response{}, j.verdict(ctx, req)", "C11.R1.memory")
+	mut("C11", "verdict approves without recording", plgo,
+		"	j.approvals = append(j.approvals, req.Key)\n", "", "C11.R1.memory")
+	mut("C11", "verdict logs the approvals before locking", plgo,
+		"	j.L.Debug(\"juror received proposal. making verdict\", logID)", "	j.L.Debug(\"juror received proposal. making verdict\", logID, zap.Int(\"approved\", len(j.approvals)))", "C11.R1.GUARD")
+	mut("C11", "propose returns the key although the quorum rejected", plgo,
+		"			r.L.Error(\"quorum rejected proposal. retrying.\", zap.Error(err))\n			continue\n", "			r.L.Error(\"quorum rejected proposal. retrying.\", zap.Error(err))\n", "C11.R2.quorum")
+	mut("C11", "retries reuse the proposed key", plgo,
+		"		res.Key = r.idToPropose()\n", "		if res.Key == 0 {\n			res.Key = r.idToPropose()\n		}\n", "C11.R2.quorum")
+	mut("C11", "an unreachable quorum is consulted anyway", plgo,
+		"		if qErr != nil {\n			err = qErr\n			break\n		}", "		_ = qErr", "C11.R2.quorum")
+	mut("C11", "juror timeouts count as approvals", plgo,
+		"			return err\n		})\n	}\n	return wg.Wait()", "			if reqCtx.Err() != nil {\n				return nil\n			}\n			return err\n		})\n	}\n	return wg.Wait()", "C11.R3.failures")
+	mut("C11", "consultQuorum ignores juror failures", plgo,
+		"	return wg.Wait()\n}", "	_ = wg.Wait()\n	return nil\n}", "C11.R3.failures")
+	mut("C11", "retries can go back to the highest known key", plgo,
+		"		r._proposedKey++", "		r._proposedKey = highestNodeID(r.candidateSnapshot)", "C11.R4.monotone")
 }
